@@ -10,9 +10,13 @@ LANGUAGE (`Oq3.LangEv.Stmt` / `Stmts`, `Lemmas/LangEv.lean`), over token kinds:
       | E ;  | g q0, …, qn ;  | g(E, …, E) q0, …, qn ;  | measure q ;  | reset q ;  | barrier q0, …, qn ;
       | break ; | continue ; | end ;
       | if (E) { S* }  | if (E) { S* } else { S* }  | while (E) { S* }  | for ty x in [E:E] { S* }
+      | gate g q0, …, qn { S* }  | gate g(p0, …, pk) q0, …, qn { S* }
+      | def f(pty x, …) { S* }  | def f(pty x, …) -> ty { S* }      (pty ∈ ty ∪ {qubit}; the list may be empty)
+      | return ;  | return E ;
 
 THEOREMS.
-* `stmt_ok` / `stmts_ok` (`Lemmas/LangEvProg.lean`, mutual induction): every well-formed statement /
+* `stmt_ok` / `stmts_ok` (`Lemmas/LangEvProg.lean`, mutual induction; the statement lemmas are in
+  `Lemmas/LangEvStmt.lean` (flat statements), `LangEvCtl.lean` (control flow), `LangEvDef.lean` (definitions)): every well-formed statement /
   statement list is accepted by `stmt` / the statement loop FROM ANY READY STATE, with exactly the
   events `evsS` / `evsL` — so they compose with any context.
 * `program_accepted`: for every well-formed program `p` and every `fuel ≥ needL p + 3`,
@@ -23,7 +27,8 @@ THEOREMS.
   derivation — C05's "the AST mirrors the derivation" for whole programs.
 
 WELL-FORMEDNESS `WFL` — exactly the side conditions the grammar needs:
-* every expression is canonical at level 1 (`Canon implTab 1`, `Props/C05Events.lean: canonE_iff`);
+* every expression (initialisers, designators, conditions, range bounds, gate arguments, `return` values,
+  expression statements) is canonical at level 1 (`Canon implTab 1`, `Props/C05Events.lean: canonE_iff`);
 * F06: the right-hand side of `x = rhs;` is canonical at level 12 — not a bare binary expression
   (`= `has binding power 12; identifier, literal, prefix and parenthesised expressions qualify);
   the rejection of `x = a + b;` is the separate witness `Props/C04.lean: witness_assign_binary_rhs`;
@@ -89,6 +94,22 @@ theorem argEvs_errorFree (as : List E) : errorFree (argEvs as) = true := by
     | nil => simp [argEvs, evs_errorFree]
     | cons b bs => simp [argEvs, errorFree_append, evs_errorFree, errorFree, ih]
 
+theorem paramEvs_errorFree (n : Nat) : errorFree (paramEvs n) = true := by
+  induction n with
+  | zero => rfl
+  | succ n ih => simp [paramEvs, errorFree, ih]
+
+theorem typedEvs_errorFree (ps : List PTy) : errorFree (typedEvs ps) = true := by
+  induction ps with
+  | nil => rfl
+  | cons p ps ih =>
+    cases ps with
+    | nil => rfl
+    | cons q qs => simp [typedEvs, errorFree, ih]
+
+theorem retEvs_errorFree (ret : Option Ty) : errorFree (retEvs ret) = true := by
+  cases ret <;> rfl
+
 theorem tyEvs_errorFree (ty : Ty) (w : Option E) : errorFree (tyEvs ty w) = true := by
   cases w <;> simp [tyEvs, errorFree, errorFree_append, evs_errorFree]
 
@@ -119,6 +140,14 @@ theorem evsS_errorFree : ∀ st : Stmt, errorFree (evsS st) = true
     simp [evsS, blockEvs, errorFree, errorFree_append, evs_errorFree, evsL_errorFree body]
   | .forS ty lo hi body => by
     simp [evsS, blockEvs, errorFree, errorFree_append, evs_errorFree, evsL_errorFree body]
+  | .gateDef none nq body => by
+    simp [evsS, blockEvs, errorFree, errorFree_append, paramEvs_errorFree, evsL_errorFree body]
+  | .gateDef (some k) nq body => by
+    simp [evsS, blockEvs, errorFree, errorFree_append, paramEvs_errorFree, evsL_errorFree body]
+  | .defS ps ret body => by
+    simp [evsS, blockEvs, errorFree, errorFree_append, typedEvs_errorFree, retEvs_errorFree, evsL_errorFree body]
+  | .ret none => rfl
+  | .ret (some e) => by simp [evsS, errorFree, errorFree_append, evs_errorFree, tombLink, exprStmtTail]
 theorem evsL_errorFree : ∀ ss : Stmts, errorFree (evsL ss) = true
   | .nil => rfl
   | .cons st ss => by simp [evsL, errorFree_append, evsS_errorFree st, evsL_errorFree ss]
@@ -165,6 +194,8 @@ theorem canonE_iff (t : E) (bp : Nat) : CanonE bp t ↔ Oq3.Props.C05.Canon Oq3.
 int[8] x = a + 1 * (b);
 for uint i in [1:x] { if (i <= -1) { x = -i; h q, r; } else { rx(x / 1) q; break; } }
 while (!x) { c = measure q; }
+gate g(t) a, b { rx(t) a; h b; }
+def f(int n, qubit q) -> bit { c = measure q; return c; }
 ``` -/
 def demo : Stmts :=
   .cons (.decl .int (some .int) (some (.bin .plus .id (.bin .star .int (.paren .id)))))
@@ -172,7 +203,9 @@ def demo : Stmts :=
     (.cons (.ifElse (.bin .lteq .id (.pre .minus .int))
         (.cons (.assign (.pre .minus .id)) (.cons (.gate [] 1) .nil))
         (.cons (.gate [.bin .slash .id .int] 0) (.cons .brk .nil))) .nil))
-  (.cons (.whileS (.pre .bang .id) (.cons .assignMeasure .nil)) .nil))
+  (.cons (.whileS (.pre .bang .id) (.cons .assignMeasure .nil))
+  (.cons (.gateDef (some 0) 1 (.cons (.gate [.id] 0) (.cons (.gate [] 0) .nil)))
+  (.cons (.defS [.cls .int, .qubit] (some .bit) (.cons .assignMeasure (.cons (.ret (some .id)) .nil))) .nil))))
 
 theorem demo_wf : WFL demo := by
   simp [demo, WFL, WFS, CanonE, BinOp.pow, isAssign, startsMinus, Ty.wide]
